@@ -3,7 +3,7 @@
 (* x position for the optional constructs ==nil, !=nil, get, or, ?=.             *)
 EXTENDS Ast, TLC, Json
 
-Carriers == {"var", "param", "result", "elem"}
+Carriers == {"var", "param", "result", "elem", "field"}
 Types == {"int", "str", "list"}
 Uses == {"eqnil", "nenil", "get", "or", "orlit", "unwrap_if", "unwrap_stmt", "unwrap_print",
          "unwrap_while", "eqval", "getuse", "orchain", "unwrap_nested", "unwrap_twice", "unwrap_nested_twice", "or_closure"}
@@ -12,7 +12,7 @@ Positions == {"stmt", "inif", "inwhile", "infn"}
 (* excluded: an int captured by a function literal is refused as a list index by the type   *)
 (* checker (unrelated limitation); == between an optional list and a list literal is not   *)
 (* an operation of the language                                                            *)
-Valid(s) == ~(s.carrier = "elem" /\ s.pos = "infn") /\ ~(s.ty = "list" /\ s.use = "eqval")
+Valid(s) == ~(s.carrier = "elem" /\ s.pos = "infn") /\ ~(s.carrier = "field" /\ s.pos = "infn") /\ ~(s.ty = "list" /\ s.use = "eqval")
 Scenarios == {s \in [carrier : Carriers, ty : Types, present : BOOLEAN, use : Uses, pos : Positions] : Valid(s)}
 
 VARIABLE sc
@@ -33,10 +33,17 @@ Setup(s) ==
                           <<Print(S("mk")), If(V("b"), <<Ret(Val(s.ty))>>), Ret(Nil)>>))>>
       [] s.carrier = "elem" -> <<LetT("xs", "[" \o Opt(s.ty) \o "...]", List(<<Nil, Val(s.ty)>>)),
                                  Let("k", I(IF s.present THEN 1 ELSE 0))>>
+      \* an optional field of an object
+      [] s.carrier = "field" ->
+           <<[k |-> "class", n |-> "Holder", export |-> FALSE, fields |-> <<[n |-> "f", ty |-> Opt(s.ty)]>>,
+              ctor |-> <<[ps |-> <<>>, b |-> <<Assign(Fld(Self, "f"), "=", Nil)>>]>>, methods |-> <<>>],
+             Let("h", New("Holder", <<>>))>>
+           \o (IF s.present THEN <<Assign(Fld(V("h"), "f"), "=", Val(s.ty))>> ELSE <<>>)
 E(s) == CASE s.carrier = "var" -> V("v")
           [] s.carrier = "param" -> V("p")
           [] s.carrier = "result" -> Call(V("mk"), <<B(s.present)>>)
           [] s.carrier = "elem" -> Idx(V("xs"), V("k"))
+          [] s.carrier = "field" -> Fld(V("h"), "f")
 
 DeclW(s) == LetT("w", Opt(s.ty), Nil)
 Dflt(s) == Let("dflt", Fn("dflt", <<>>, TyText(s.ty), <<Print(S("dflt")), Ret(Val2(s.ty))>>))
